@@ -814,7 +814,8 @@ Definition opesx_validate (kbt : Q) (bf_inf : bool) (explore : bool) (e : env) :
                   mkOpesx ba (if bf_inf then None else Some bfv) eps cut ct).
 
 (* ---- metadynamics: hillWeight, widths, well-tempered ------------------------------------------------- *)
-Record metax := mkMetax { mx_weight : Q; mx_sigmas : nat; mx_wt : bool; mx_biastemp : Q }.
+Record metax := mkMetax { mx_weight : Q; mx_sigmas : nat; mx_wt : bool; mx_biastemp : Q;
+                          mx_widths : list Q (* the gaussianSigmas in force; [] when hillWidth is used (width_i * hillWidth / 2 > 0) *) }.
 
 Definition metax_validate (n : nat) (e : env) : errs * metax :=
   let '(hw, p0) := ereal e "hillWeight" Q0 in
@@ -825,11 +826,13 @@ Definition metax_validate (n : nat) (e : env) : errs * metax :=
   let '(hwid, p1) := ereal e "hillWidth" Q0 in
   let x1 := flag_input (es || p1 || (negb (Nat.eqb (List.length sig) 0) && Qltb Q0 hwid)) x0 in   (* mutually exclusive *)
   let nsig := if Qltb Q0 hwid then n else List.length sig in
-  if negb (Nat.eqb nsig n) then (flag_input true x1, mkMetax hw nsig false Q0)              (* number of widths: return *)
+  let ws := if Qltb Q0 hwid then [] else sig in
+  if negb (Nat.eqb nsig n) then (flag_input true x1, mkMetax hw nsig false Q0 ws)           (* number of widths: return *)
+  else if negb (forallb (Qltb Q0) ws) then (flag_input true x1, mkMetax hw nsig false Q0 ws)   (* repaired: every width > 0 (the hills divide by its square): return *)
   else
     let wt := eflag e "wellTempered" false in
     let '(bt, p2) := ereal e "biasTemperature" (-1 # 1) in
-    (flag_input (p2 || (wt && Qeq_bool bt (-1 # 1))) x1, mkMetax hw nsig wt bt).
+    (flag_input (p2 || (wt && Qeq_bool bt (-1 # 1))) x1, mkMetax hw nsig wt bt ws).
 
 (* ---- ABF: shared ------------------------------------------------------------------------------------- *)
 Definition abfshared_validate (restart_out_freq : Z) (e : env) : errs * (Z * Z) :=
